@@ -26,6 +26,7 @@ RULE = (
 ASSUMPTIONS = [
     'AS 0 and attribute sets larger than one message are not judged for acceptance (arguable), only for the absence of exceptions and of session loss',
     'an API error reply whose text reports an unexpected exception (the handlers\' catch-all) counts as an unhandled exception, and so does any exception other than ValueError / configuration Error / Notify reaching Configuration.reload()\'s catch-all',
+    'a rate-limit above 1e12 bytes/s is clamped to 1e12 with a logged warning (a deliberate guard in the flow parser): judged for one verdict / no exception only',
     'arguable and only judged for one verdict / no exception: a 2-byte fragment bitmask, an IPv6 flow prefix whose offset exceeds its length, a negative rate-limit (an IEEE float can hold it), a VPLS label block ending exactly at label 1048575',
 ]
 
@@ -124,6 +125,14 @@ def more_fields(f: dict) -> None:
         (('source 10.0.0.1/32;', 'mark 64;'), False, None), (('source 10.0.0.1/32;', 'mark -1;'), False, None), (('source 10.0.0.1/32;', 'action frobnicate;'), False, None),
         (('source 10.0.0.1/32;', 'action sample-terminal;'), True, {'kind': 'flow', 'afi': 1, 'comps': [src4], 'ecs': [FL.ec_action(True, True).hex()]}),
     ]  # fmt: skip
+
+    f['flow'] += [
+        # an offset a byte cannot hold; components of both address families in one rule; a rate an IEEE float holds exactly
+        (('destination 2001:db8::/64/300;', 'discard;'), False, None),
+        (('destination 10.0.0.1/32; source 2001:db8::/32/0;', 'discard;'), False, None),
+        (('source 10.0.0.1/32;', 'rate-limit 1000000000000;'), True, {'kind': 'flow', 'afi': 1, 'comps': [src4], 'ecs': [FL.ec_rate_bytes(0, 1000000000000.0).hex()]}),
+        (('source 10.0.0.1/32;', 'rate-limit 2199023255552;'), None, None),  # above 1e12 exabgp clamps and logs a warning, on purpose: one verdict / no exception only
+    ]
 
     def ports(vals):
         return 'source 10.0.0.1/32; destination-port [ ' + ' '.join(f'={v}' for v in vals) + ' ];', [5, [[False, False, False, True, v, None] for v in vals]]
